@@ -47,14 +47,8 @@ def direct_mutations(b, BL):
     return out
 
 
-def run(ctx):
-    C = Check('C11', ctx['tier'], 'other', ctx['seed'])
-    P = Program(ctx['facts'])
-    C.rule('C11-FLOW-vbm', 'for every function returning Result<_, AutosarDataError> reachable from the public API: the set of pairs (mutation of ElementRaw/AutosarModelRaw/ArxmlFileRaw state, Err exit) connected by a CFG path is empty, or each pair is reviewed as infeasible; mutations of objects created in the same function are exempt')
-    C.assumptions = ['path-insensitive: a reported pair may be infeasible; reviewed pairs carry the reason', 'writing files to disk is outside the model state (excluded by the property)']
-    reviewed = json.load(open(os.path.join(VERIF, 'tables', 'c11_reviewed.json')))['reviewed']
-    requires = {r['key']: r.get('requires', []) for r in reviewed}
-    reviewed = {r['key']: r['reason'] for r in reviewed}
+def compute_pairs(P, reviewed):
+    """the (mutation, Err exit) pairs of every public-reachable fallible function; shared by C11 and C16"""
     scope = [b for b in P.bodies.values() if b.crate == 'autosar_data']
     BLs = {}
     direct = {}
@@ -140,6 +134,18 @@ def run(ctx):
         if new_dirty == DIRTY:
             break
         DIRTY = new_dirty
+    return scope, pairs_by_fn, MUT, pub_reach, ret_err
+
+
+def run(ctx):
+    C = Check('C11', ctx['tier'], 'other', ctx['seed'])
+    P = Program(ctx['facts'])
+    C.rule('C11-FLOW-vbm', 'for every function returning Result<_, AutosarDataError> reachable from the public API: the set of pairs (mutation of ElementRaw/AutosarModelRaw/ArxmlFileRaw state, Err exit) connected by a CFG path is empty, or each pair is reviewed as infeasible; mutations of objects created in the same function are exempt')
+    C.assumptions = ['path-insensitive: a reported pair may be infeasible; reviewed pairs carry the reason', 'writing files to disk is outside the model state (excluded by the property)']
+    reviewed = json.load(open(os.path.join(VERIF, 'tables', 'c11_reviewed.json')))['reviewed']
+    requires = {r['key']: r.get('requires', []) for r in reviewed}
+    reviewed = {r['key']: r['reason'] for r in reviewed}
+    scope, pairs_by_fn, MUT, pub_reach, ret_err = compute_pairs(P, reviewed)
     n_pairs = 0
     n_fn = 0
     for b in scope:
